@@ -71,15 +71,6 @@ def bitarrayMeaning (ba : Bits) : List Py.Act → Option (Except Err Store)
       some ((Py.getSlice ba (some a) (some b) none).map ofBits)
   | _ => none
 
-/-- Closes the leaves left after the guards have been split: identical results (`rfl`), contradictory guards
-    (`contradiction` / `omega`), or equal results whose index arithmetic is written differently (`simp`, then `grind`). -/
-local macro "leaf" : tactic =>
-  `(tactic| first
-    | rfl
-    | contradiction
-    | omega
-    | (simp; first | done | grind))
-
 /-- `x[:l]` for `0 ≤ l ≤ len(x)` is the first `l` elements. -/
 theorem getSlice_prefix {α} (x : List α) (l : Int) (h0 : 0 ≤ l) (h1 : l ≤ x.length) :
     Py.getSlice x none (some l) none = .ok (x.take l.toNat) := by
@@ -94,6 +85,20 @@ theorem getSlice_prefix {α} (x : List α) (l : Int) (h0 : 0 ≤ l) (h1 : l ≤ 
   rw [h]
   simp
 
+/-- Closes the leaves left after ALL guards of both sides have been split with `split_ifs` (whatever their order,
+    nesting or polarity in the source): contradictory guards (`omega`, or a literal `False`), syntactically identical
+    results (`with_reducible rfl`), or results that agree after unfolding the meaning (`simp`; a prefix slice is
+    rewritten by `getSlice_prefix`, its side conditions discharged by `omega` from the guards) up to the way the
+    index arithmetic is written (`omega` / congruence + linear arithmetic by `grind`). -/
+local macro "leaf" : tactic =>
+  `(tactic| first
+    | omega
+    | (exfalso; assumption)
+    | with_reducible rfl
+    | (simp (disch := omega) [run, Except.map, frombufferMeaning, bytesMeaning, bitarrayMeaning, modLenOf, getSlice,
+        ofBits, getSlice_prefix]
+       first | done | omega | grind))
+
 /-- `BitStore.frombuffer` as the source has it now = `C08.fromBuffer`, for every buffer content and every
     `length` (`len_buffer_bits` is `len(x._bitarray)`, the number of bits of the buffer).  In particular the
     resulting store's `modLen` is the final `modified_length` the translation recorded, and its `raw` is the buffer,
@@ -101,13 +106,9 @@ theorem getSlice_prefix {α} (x : List α) (l : Int) (h0 : 0 ≤ l) (h1 : l ≤ 
 theorem frombuffer_eq (data : Bits) (length : Option Int) :
     run (frombufferMeaning data) (Gen.Src.frombuffer length (data.length : Int)) = some (fromBuffer data length) := by
   unfold Gen.Src.frombuffer fromBuffer
-  rcases length with _ | l
-  · rfl
-  · simp only [List.nil_append, List.cons_append, decide_eq_true_eq]
-    split_ifs <;> first | rfl | omega | skip
-    simp only [run, frombufferMeaning, modLenOf, Option.map_none]
-    rw [getSlice_prefix data l (by omega) (by omega)]
-    rfl
+  rcases length with _ | l <;>
+    simp [run, frombufferMeaning, modLenOf]
+  all_goals (split_ifs <;> leaf)
 
 /-- `Bits._setbytes_with_truncation` as the source has it now = `C08.fromBytes`, for every offset and length.
     C08 keeps the data as bits; the Python function sees a bytes object of `len(data) = m` bytes and computes with
@@ -121,10 +122,7 @@ theorem setbytes_with_truncation_eq (data : Bits) (m : Nat) (hm : data.length = 
   have hlen : (data.length : Int) = (m : Int) * 8 := by omega
   unfold Gen.Src.setbytes_with_truncation fromBytes
   rcases offset with _ | o <;> rcases length with _ | l <;>
-    simp only [hlen, Option.isNone_none, Option.isNone_some, Bool.and_self, Bool.and_false, Bool.false_and,
-      if_true, if_false, Bool.false_eq_true, List.nil_append, List.cons_append, decide_eq_true_eq, Option.getD_none,
-      Option.getD_some]
-  · rfl
+    simp [run, bytesMeaning]
   all_goals (split_ifs <;> leaf)
 
 /-- `Bits._setbitarray` as the source has it now = `C08.fromBitarray`, for every bitarray content, offset and
@@ -134,7 +132,7 @@ theorem setbitarray_eq (data : Bits) (offset length : Option Int) :
       = some (fromBitarray data offset length) := by
   unfold Gen.Src.setbitarray fromBitarray
   rcases offset with _ | o <;> rcases length with _ | l <;>
-    simp only [List.nil_append, decide_eq_true_eq, Option.getD_none, Option.getD_some]
+    simp [run, bitarrayMeaning]
   all_goals (split_ifs <;> leaf)
 
 /-- Non-vacuity: a 16-bit buffer read with `length=5` — the six-effect trace (with the `[:5]` cut). -/
